@@ -13,7 +13,7 @@ import math
 from .runners import CLASSICAL_1Q, CLASSICAL_2Q, DIAG_PARAM
 
 ROT = ["RX", "RY"]
-MUTATIONS = ["param", "param", "param-close", "qubit", "qubit", "gate", "idle", "idle", "append", "prepend", "drop",
+MUTATIONS = ["param", "param", "param-close", "param-eq", "param-eq", "param-eq", "qubit", "qubit", "gate", "idle", "idle", "append", "prepend", "drop",
              "swap", "copy", "dup"]
 
 
@@ -63,12 +63,21 @@ def mutate(rng, spec, kind, quantum=False, max_n=5):
         return None
     i = rng.randrange(len(ops))
     name, qs, p = ops[i]
-    if kind in ("param", "param-close"):
+    if kind in ("param", "param-close", "param-eq"):
         idx = [j for j, o in enumerate(ops) if o[2] is not None]
         if not idx:
             return None
         i = rng.choice(idx)
         name, qs, p = ops[i]
+        if kind == "param-eq":
+            # a different number that a tolerance based comparison (numpy.allclose: 1e-8 absolute + 1e-5 relative;
+            # the library's circuits / gates compare that way) calls equal to p: anything that recognises "the same
+            # circuit again" by such a comparison confuses the two
+            q = p + rng.choice([1e-9, -1e-9, 3e-9, 1e-12, -1e-10, 2e-7 * p, -1e-6 * p, 1e-15, 5e-9])
+            if q == p:
+                q = math.nextafter(p, math.inf)
+            ops[i] = (name, qs, q)
+            return {"n": n, "ops": ops}
         if kind == "param-close":
             q = round(p + rng.choice([0.001, -0.001, 0.004]), 3)
         else:
